@@ -230,9 +230,6 @@ namespace bxdecay0 {
     if (is_debug()) {
       std::cerr << "[debug] decay0_generator::reset: Entering..." << std::endl;
     }
-    if (!_initialized_) {
-      return;
-    }
     _initialized_ = false;
     _reset_();
     if (is_debug()) {
